@@ -1073,14 +1073,14 @@ func (r *run) judge() {
 
 func TestSwarmSchedules(t *testing.T) {
 	name := t.Name()
-	hx.Check(t, 6000, 200000, 0, func(rt *rapid.T) {
+	hx.Check(t, 16000, 400000, 0, func(rt *rapid.T) {
 		runScenario(t, rt, name, drawScenario(rt, false))
 	})
 }
 
 func TestHostSchedules(t *testing.T) {
 	name := t.Name()
-	hx.Check(t, 3000, 80000, 0, func(rt *rapid.T) {
+	hx.Check(t, 8000, 160000, 0, func(rt *rapid.T) {
 		runScenario(t, rt, name, drawScenario(rt, true))
 	})
 }
